@@ -87,6 +87,7 @@ class Runner:
         self.dictkeys = {}                # stored tag -> key (dict containers)
         self.mem_names = {}
         self.problems = []
+        self.made = {}                    # factory object id -> object ids it has made, in order
 
     # -- plumbing ------------------------------------------------------------------------------
     def tag(self):
@@ -166,9 +167,25 @@ class Runner:
             return
         x = self.book.new(kind)
         self.book.add(t, ('proc', p), x)
+        if kind == 'managed':
+            self.made.setdefault(self.book.get(ftag)['obj'], []).append(x)
         if kind == 'mem':
             self.mem_names[x] = r[1]
         self.record(['create', p, t], new_obj=x)
+
+    def do_again(self, p, ftag, x, k):
+        """a hosted method returns managed(value) for a value that is already hosted (object x, which has the live proxy k):
+        for the reference count this is one more reference to x, like pickling k and unpickling it in p"""
+        f = self.book.get(ftag)['obj']
+        t, tt = self.tag(), self.tag()
+        r = self.call(p, ['again', ftag, self.made[f].index(x), t])
+        if r[0] != 'ok':
+            self.problems.append(f'managed() of the already hosted object {x} failed in process {p}: {r[1:3]}')
+            return
+        self.book.add(t, ('proc', p), x)
+        self.ops.append(['pickle', k, 0, tt])
+        self.steps.append({'op': ['pickle', k, 0, tt], 'observed': None, 'expected': None, 'unmapped': [], 'shm': {}})
+        self.record(['unpickle', tt, p, t], note='managed() of an already hosted value')
 
     def do_pickle(self, p, tag):
         r = self.call(p, ['pickle', tag])
@@ -298,7 +315,7 @@ class Runner:
         procs = sorted(self.procs)
         for _ in range(30):
             kind = rng.choice(['create', 'create', 'pickle', 'unpickle', 'unpickle', 'spawn', 'drop', 'drop', 'store', 'store',
-                               'remove', 'remove', 'exit', 'use', 'use'])
+                               'remove', 'remove', 'exit', 'use', 'use', 'again', 'again'])
             p = rng.choice(procs)
             mine = book.proxies(p)
             if kind == 'create':
@@ -309,6 +326,18 @@ class Runner:
                         continue
                     return self.do_create(p, 'managed', rng.choice(fs)['tag'])
                 return self.do_create(p, k)
+            if kind == 'again':
+                cands = []
+                for fr in mine:
+                    if book.kind[fr['obj']] == 'factory':
+                        for x in self.made.get(fr['obj'], []):
+                            ks = [r for r in book.refs if r['obj'] == x and r['holder'][0] == 'proc'] if book.alive[x] else []
+                            if ks:
+                                cands.append((fr['tag'], x, ks[0]['tag']))
+                if cands:
+                    ftag, x, k = rng.choice(cands)
+                    return self.do_again(p, ftag, x, k)
+                continue
             if kind == 'pickle' and mine:
                 return self.do_pickle(p, rng.choice(mine)['tag'])
             if kind == 'unpickle' and self.transit_bytes:
@@ -373,7 +402,10 @@ def impl_main(argv):
     rng = random.Random(seed)
     out = []
     specs = [c['cfg'] for c in corpus] + [{'seed': rng.randrange(10**9), 'length': rng.choice([5, 10, 20, 30, 40])} for _ in range(n)]
+    import gc
+    gc.disable()      # see harness/props/c14.py: collections only at safe points (CPython 3.12.1 thread-start / finalizer deadlock)
     for spec in specs:
+        gc.collect()
         t0 = time.time()
         try:
             with ServerProcess() as m:
@@ -460,8 +492,8 @@ def check(tier, seed, replay=None):
     return core.generic_check(
         PROP, tier, seed, [part], TRUSTED, ASSUME,
         rule='random histories of 5-40 operations over {create list/dict/MemoryBlock, pickle, unpickle once in any process, start a child '
-             'with proxies as process arguments, delete a proxy, store a proxy in a hosted list/dict, pop it back (kept or dropped), use, child '
-             'exits} on one real ServerProcess with the main process and 2-4 helper processes; after each step the server table is compared '
+             'with proxies as process arguments, delete a proxy, store a proxy in a hosted list/dict, pop it back (kept or dropped), managed() of a new and of an already hosted value, '
+             'use, child exits} on one real ServerProcess with the main process and 2-4 helper processes; after each step the server table is compared '
              'with the references that exist (oracle) and with the Coq model (correspondence); at the end everything is dropped and the table '
              'and /dev/shm must be empty. non-trivial = at least 10 operations; distinct = distinct operation list',
         replay=replay, post=post)
